@@ -884,7 +884,7 @@ pub fn part_evalfp(out: &mut Out, o: &Opts) {
     }
     // long iterations: a chain that grows by one variable per round (the pattern of tests/data/test_fixpoint.txt),
     // n rounds for n variables, and its dual
-    let chain_ns: &[usize] = if o.thorough { &[2, 5, 40, 64, 65, 127, 128, 129, 135, 256, 300] } else { &[2, 5, 40, 129] };
+    let chain_ns: &[usize] = if o.thorough { &[2, 3, 4, 5, 6, 8, 40, 64, 65, 127, 128, 129, 135, 256, 300] } else { &[2, 3, 4, 5, 6, 8, 40, 129] };
     for &n in chain_ns {
         let mut mu = String::from("mu X # v0");
         let mut nu = String::from("nu X # v0");
@@ -893,6 +893,23 @@ pub fn part_evalfp(out: &mut Out, o: &Opts) {
             nu.push_str(&format!(" & (if (exists v{i} # X & -v{i}) then X else (X & v{}))", i + 1));
         }
         emit_eval(out, &mu, &[]);
+        if n <= 8 {
+            // the same chain under outer quantifiers that bind all, or all but one, of its variables: the iteration needs n rounds
+            // whatever the number of variables that are free in the whole formula
+            let all: Vec<String> = (0..n).map(|i| format!("v{i}")).collect();
+            emit_eval(out, &format!("exists {} # ({mu})", all.join(", ")), &[]);
+            emit_eval(out, &format!("forall {} # ({mu})", all.join(", ")), &[]);
+            emit_eval(out, &format!("exists {} # (-v0 & ({mu}))", all[1..].join(", ")), &[]);
+            emit_eval(out, &format!("forall {} # (v0 | ({nu}))", all[..n - 1].join(", ")), &[]);
+            emit_eval(out, &format!("w & exists {} # ({mu})", all.join(", ")), &[]);
+            // ... observed at the one assignment that only the last iterate contains
+            let cube: Vec<String> = (0..n).map(|i| if i + 1 == n { format!("v{i}") } else { format!("-v{i}") }).collect();
+            emit_eval(out, &format!("exists {} # ({} & ({mu}))", all.join(", "), cube.join(" & ")), &[]);
+            emit_eval(out, &format!("exists {} # ({} & ({mu}))", all[..n - 1].join(", "), cube.join(" & ")), &[]);
+            emit_eval(out, &format!("forall {} # (({}) => ({mu}))", all.join(", "), cube.join(" & ")), &[]);
+            let cube_nu: Vec<String> = (0..n).map(|i| if i + 1 == n { format!("-v{i}") } else { format!("v{i}") }).collect();
+            emit_eval(out, &format!("exists {} # ({} & -({nu}))", all.join(", "), cube_nu.join(" & ")), &[]);
+        }
         if n <= 40 || o.thorough {
             emit_eval(out, &nu, &[]);
             let all: Vec<String> = (0..n).map(|i| format!("v{i}")).collect();
